@@ -4,6 +4,7 @@ import (
 	"encoding/json"
 	"fmt"
 	"reflect"
+	"regexp"
 	"strings"
 	"testing"
 
@@ -172,7 +173,7 @@ func c06GenJV(t *rapid.T, depth int, allowNull bool) model.JV {
 		n := rapid.IntRange(0, 3).Draw(t, "nmembers")
 		used := map[string]bool{}
 		for i := 0; i < n; i++ {
-			key := rapid.SampledFrom(c06Keys).Draw(t, "key")
+			key := rapid.SampledFrom(append([]string{"", "0", "1"}, c06Keys...)).Draw(t, "key") // nested keys may be empty or look like indexes
 			if used[key] {
 				continue
 			}
@@ -238,6 +239,34 @@ func pathsOf(v model.JV, prefix string, out *[]string) {
 			pathsOf(e, p, out)
 		}
 	}
+}
+
+var lastIndexRe = regexp.MustCompile(`\[([0-9]+)\]$`)
+var lastQuotedRe = regexp.MustCompile(`\["((?:[^"\\]|\\.)*)"\]$`)
+var lastFieldRe = regexp.MustCompile(`(^|\.)([A-Za-z_][A-Za-z0-9_]*)$`)
+
+// wrongTypePath replaces the last selector of a path by a selector of the other type.
+func wrongTypePath(p string, variant int) string {
+	switch {
+	case lastIndexRe.MatchString(p):
+		m := lastIndexRe.FindStringSubmatch(p)
+		base := strings.TrimSuffix(p, m[0])
+		if variant == 0 {
+			return base + `[""]`
+		}
+		return base + `["` + m[1] + `"]`
+	case lastQuotedRe.MatchString(p):
+		base := strings.TrimSuffix(p, lastQuotedRe.FindString(p))
+		return base + fmt.Sprintf("[%d]", variant)
+	case lastFieldRe.MatchString(p):
+		m := lastFieldRe.FindStringSubmatch(p)
+		base := strings.TrimSuffix(p, m[0])
+		if base == "" {
+			return p
+		}
+		return base + fmt.Sprintf("[%d]", variant)
+	}
+	return p
 }
 
 func isIdent(s string) bool {
@@ -383,6 +412,11 @@ func c06Gen(t *rapid.T) C06Case {
 					p := rapid.SampledFrom(paths).Draw(t, "path")
 					if rapid.IntRange(0, 5).Draw(t, "missing-path") == 0 {
 						p = rapid.SampledFrom([]string{"nosuch", "a.nosuch", "a[9]", `["nosuch key"]`}).Draw(t, "badpath")
+					}
+					if rapid.IntRange(0, 3).Draw(t, "wrong-type-path") == 0 {
+						// Same place, selector of the other type: an index where a key is needed and
+						// vice versa must select nothing.
+						p = wrongTypePath(p, rapid.IntRange(0, 2).Draw(t, "wrong-type-variant"))
 					}
 					st.Exprs = append(st.Exprs, gen.KV{Label: dst, Expr: p})
 				}
